@@ -22,6 +22,7 @@ THEOREMS = [NS + n for n in [
     "record_valid",
     "has_facebook_comments_spec",
     "reparse_url_partial",
+    "reparse_of_parse_partial",
     "witness_facts",
     "fullReparse_false",
     "excluded_shapes_fail",
@@ -41,11 +42,77 @@ def owns_op(op):
     return op.get("f") in OPS
 
 
-RULE = ""
-EXHAUSTIVE = {"quick": "", "thorough": ""}
-TRUSTED = []
-ASSUMPTIONS = []
-UNPROVED = ""
+RULE = (
+    "Cases are typed. url: (url, allow_relative_urls) -> parse_facebook_url (record fields + .url + .full_id), has_facebook_comments, "
+    "parse(record.url) again, the hypotheses of the round-trip theorems on the record (reparsable / fieldsOk / findingShape, Lean vs a "
+    "Python port), and the seven other functions of the module on the same string (is_facebook_id, is_facebook_full_id, is_facebook_url, "
+    "is_facebook_post_url, is_facebook_link, extract_url_from_facebook_link, convert_facebook_url_to_mobile). Stream: the corpus (every input "
+    "of the fixed C19 findings that concern facebook.py: the 15 truncated paths of f72868e, photo urls of 24fcd80, /posts/ urls of 696e630, "
+    "unsplittable urls of d948b00, look-alike hosts) x both options; every path of 0-3 (quick) / 0-4 (thorough) segments over the 13 route "
+    "words (watch videos photo.php photo photos posts permalink.php story.php groups permalink profile.php people l.php) + id-like "
+    "(1234567890), too-short (12), handle-like (nasa), album-like (a.123), empty, x.php, a..b, too-long (40 digits) segments, with and "
+    "without trailing slash, a query cycled over 12 query sets (v, fbid+set, id+story_fbid, &amp;, empty values, set=g.), short paths also "
+    "as relative urls with allow_relative_urls=True; thorough: 120k seeded paths of 5 segments; paths of 0-1 segments x every query of 0-1 "
+    "items over 6 keys x 10 values (+ bare keys, '&', 'amp;id=1') and a seeded sample of the 2-item queries; 14 hosts (facebook.com, www, m, "
+    "fr-fr, web, fb.me, facebook.co, FACEBOOK.com, with port, with userinfo, trailing dot, example.org, notfacebook.com, facebook.evil.org) x "
+    "7 scheme forms x 13 representative paths x fragments ('#', '#!/nasa/posts/1', ...) x both options; relative references; then seeded "
+    "random urls (0-5 segments over the wider vocabulary incl. watchme, peoplex, 'a.', 'aa..', '.', '..', 'a;', 'a b', %-escapes, non-ASCII; "
+    "0-3 query items; '&amp;'). str: arbitrary strings (fixed list with '123\\n', non-ASCII digits, '&AMP%3B', IPv6 / userinfo / port oddities; "
+    "all strings of length <= 3 (quick) / 4 over {u = & ? a . 1 LF}; seeded random over a 32-character alphabet) -> the seven functions, "
+    "parse with both options, the three hand-modelled regex uses next to the generic interpreter (three-way with the real re), and the "
+    "CPython prelude the model rests on (parse_qsl, SplitResult.hostname, str.split(sep,1), str.replace, in). rec: every branch of every "
+    ".url / .full_id builder on field grids (incl. None, '', 'a b', 'x/y', 'a?b', 'None'). Non-trivial = url: the string reaches the router "
+    "(is_facebook_url, or a relative reference with allow_relative_urls); str: non-empty. Distinct = distinct (url, option)."
+)
+EXHAUSTIVE = {
+    "quick": "every path of 0-3 segments over 21 segment tokens (13 route words + 8 id-like / handle-like / too-short / too-long / empty / odd "
+    "tokens) on https://www.facebook.com, with/without trailing slash (0-2 segments: both; 3 segments: one), x the 12 query sets for 0-1 "
+    "segments and 2 query sets for 2-3; every path of 0-1 segments over 15 tokens x every query of 0-1 items over 6 keys x 10 values; "
+    "14 hosts x 7 scheme forms x 13 paths x 2-5 fragments x both options; all strings of length <= 3 over an 8-character alphabet",
+    "thorough": "as quick with paths of 0-4 segments (21^4 paths) and strings of length <= 4; paths of 5 segments and queries of 2-3 items are sampled",
+}
+TRUSTED = [
+    "Lean 4 kernel; axioms of every listed theorem audited to be within {propext, Classical.choice, Quot.sound}",
+    "hand-written Lean model Model/Facebook.lean of ural/facebook.py (all nine public functions, the six record classes and their builders; "
+    "exceptions are values, every positional access is an error-valued access), Model/FacebookScope.lean (the hypotheses of the round-trip "
+    "theorems): tied to the code by differential execution on every run (this stream) and by the regenerated data of the module "
+    "(Gen/C19FacebookTables.lean: the 6 regexes as terms, BASE_FACEBOOK_URL, the url templates observed on sentinel records, "
+    "FACEBOOK_TYPES_HAVING_COMMENTS) through the table obligations",
+    "hand-written models of CPython 3.12.1: urlsplit / urlunsplit / urljoin (Py/UrlSplit.lean; _checknetloc's NFKC step not modelled, "
+    "_check_bracketed_host approximated), SplitResult.hostname (Py/Split.lean), unquote + UTF-8 decoding with errors='replace' "
+    "(Py/PctCodec.lean), parse_qsl (Model/Facebook.lean), str methods (Py/Str.lean): modelled, not verified; compared with CPython on this "
+    "stream (fb_py) and on those of C15/C20",
+    "the regex engine: FACEBOOK_ID_RE, FACEBOOK_FULL_ID_RE, FACEBOOK_DOMAIN_RE (search), MOBILE_REPLACE_RE (sub), URL_EXTRACT_RE (search) are "
+    "the regenerated terms run by the generic backtracking matcher of Py/Re.lean (character classes computed by the running engine over all "
+    "code points); MISTAKES_RE.sub is the hand-written fixMistakes, URL_EXTRACT_RE's group 2 is derived from the match span: both tied to "
+    "their pattern string by a table obligation and compared three-way (real re / generic interpreter / hand model) on every str case",
+    "ural.utils.pathsplit, safe_urlsplit, ensure_protocol are the shared models of Model/Builders.lean and Model/Protocol.lean (C20)",
+    "the Python port of the theorem hypotheses (reparsable, fieldsOk, findingShape) used for the distribution labels is compared with the "
+    "Lean predicates on every parsed record (op fb_hyp)",
+]
+ASSUMPTIONS = [
+    "strings contain no lone surrogates; non-ASCII characters come from the plain set of DESIGN.md §4 (str.lower is the identity on them, "
+    "NFKC is the identity): hostnames with other code points are outside the model",
+    "reading of 'raise only their documented error for foreign URLs' (convert_facebook_url_to_mobile): the only exception is the TypeError "
+    "whose message is the documented one, and it is not raised when urllib's hostname of the url is facebook.<tld> or a subdomain of it "
+    "(fb.me, which has no mobile site, and look-alike hosts are not judged)",
+    "reading of the round trip: demanded of every returned record whose fields are plain id-like / handle-like tokens ([A-Za-z0-9_.-]+, "
+    "not '.' / '..'), the quantifier's 'id-like / handle-like / too-short / too-long segments'; for every other record only totality is "
+    "demanded (record.url and parse(record.url) do not raise). A record with an empty string in a field is not well-formed (as for the other "
+    "platforms: 'record with id \'\'' findings)",
+    "the property text names no facebook validator: the oracle does not demand is_facebook_id of any field (proved for the model: record_valid)",
+]
+UNPROVED = (
+    "Round trip: proved for every returned record with fieldsOk (path-borne fields without '/ ? # ;', white space, not empty, not a dot "
+    "segment; query-borne fields without '& # + %' TAB CR LF, not empty) outside the two finding shapes (reparse_of_parse_partial; and "
+    "reparse_url_partial for every record, returned or not, satisfying reparsable). The full statement (FullReparse) is false on the code as it "
+    "is: fullReparse_false / excluded_shapes_fail exhibit the failing shapes in Lean, the check replays them on the implementation "
+    "(KF-C19-FB-1..3). Outside fieldsOk the round trip is false by design for url metacharacters that parse_qs decodes or urljoin resolves "
+    "('..', 'a;', 'v=a%26b': witnesses in excluded_shapes_fail); that region is explored by the oracle for totality only (label "
+    "reparse=not-demanded). convert_facebook_url_to_mobile: that the only exception is the documented TypeError and exactly when it is "
+    "raised is proved; that it is raised on no facebook host is false (KF-C19-FB-4). is_facebook_id & co are total by their type (Bool); "
+    "nothing is proved about which strings they accept beyond the regenerated pattern terms. The CPython prelude is modelled, not verified."
+)
 
 # --------------------------------------------------------------------------------------
 # the implementation
@@ -145,7 +212,7 @@ def run_op(op):
     if f == "fb_hyp":
         def hyp():
             r = fb.parse_facebook_url(op["url"], allow_relative_urls=op["rel"])
-            return None if r is None else reparsable(fb, r)
+            return None if r is None else [reparsable(fb, r), fields_ok(r), finding_shape(r)]
         return lib.guarded(hyp)
     if f == "fb_re":
         from ural import utils
@@ -258,6 +325,50 @@ def reparsable(fb, r):
         a = r.album_id
         return (seg_ok(p) and seg_ok(r.id) and all(c not in "/?#;" and not c.isspace() for c in a) and no_watch(p)
                 and no_watch(r.id) and p != "videos" and "a." not in a and isid(p) == (r.parent_id is not None))
+    return False
+
+
+def seg_chars(s):
+    return all(c not in "/?#;" and not c.isspace() for c in s)
+
+
+def fields_ok(r):
+    """`Ural.Facebook.fieldsOk`: the character-level hypothesis of `reparse_of_parse_partial`"""
+    t = type(r).__name__
+    if t == "FacebookUser":
+        return r.handle is None and qval_ok(r.id)
+    if t == "FacebookHandle":
+        return seg_ok(r.handle)
+    if t == "FacebookGroup":
+        if (r.id is None) == (r.handle is None):
+            return False
+        return seg_ok(r.id if r.id is not None else r.handle)
+    if t == "FacebookPost":
+        parents = (r.parent_id, r.parent_handle, r.group_id, r.group_handle)
+        if sum(x is not None for x in parents) != 1:
+            return False
+        if r.parent_id is not None:
+            return qval_ok(r.parent_id) and qval_ok(r.id)
+        return seg_ok([x for x in parents if x is not None][0]) and seg_ok(r.id)
+    if t == "FacebookVideo":
+        return qval_ok(r.id) if r.parent_id is None else (seg_ok(r.parent_id) and seg_ok(r.id))
+    if t == "FacebookPhoto":
+        if r.parent_id is None and r.parent_handle is None:
+            return qval_ok(r.id) and all(x is None or qval_ok(x) for x in (r.group_id, r.album_id))
+        if (r.parent_id is not None and r.parent_handle is not None) or r.group_id is not None or r.album_id is None:
+            return False
+        p = r.parent_id if r.parent_id is not None else r.parent_handle
+        return seg_ok(p) and seg_ok(r.id) and seg_chars(r.album_id)
+    return False
+
+
+def finding_shape(r):
+    """`Ural.Facebook.findingShape`"""
+    t = type(r).__name__
+    if t == "FacebookHandle":
+        return r.handle.startswith("people")
+    if t == "FacebookPhoto":
+        return (r.parent_id is not None or r.parent_handle is not None) and r.album_id is not None and "a." in r.album_id
     return False
 
 
@@ -727,7 +838,12 @@ def classify(case):
         r = fb.parse_facebook_url(u, allow_relative_urls=case["rel"])
         labs.append("result=" + (type(r).__name__ if r is not None else "None"))
         if r is not None:
-            labs.append("reparse=" + ("proved" if reparsable(fb, r) else ("explored-only" if in_scope(r) else "not-demanded")))
+            if fields_ok(r) and not finding_shape(r):
+                labs.append("reparse=proved")  # hypotheses of reparse_of_parse_partial
+            elif in_scope(r):
+                labs.append("reparse=demanded-not-proved")  # in the oracle's scope, outside the theorem's: the known findings
+            else:
+                labs.append("reparse=not-demanded")
     except Exception as e:  # noqa
         labs.append("result=!" + type(e).__name__)
         r = None
